@@ -73,22 +73,33 @@ def init : State := ⟨0x67452301, 0xefcdab89, 0x98badcfe, 0x10325476⟩
 
 /-- One of the 64 steps; `m` holds the 16 message words of the current block. -/
 @[inline] def step (m : Array UInt32) (i : Nat) (s : State) : State :=
-  let (f, g) :=
-    if i < 16 then ((s.b &&& s.c) ||| (~~~s.b &&& s.d), i)
-    else if i < 32 then ((s.d &&& s.b) ||| (~~~s.d &&& s.c), (5 * i + 1) % 16)
-    else if i < 48 then (s.b ^^^ s.c ^^^ s.d, (3 * i + 5) % 16)
-    else (s.c ^^^ (s.b ||| ~~~s.d), (7 * i) % 16)
+  let f :=
+    if i < 16 then (s.b &&& s.c) ||| (~~~s.b &&& s.d)
+    else if i < 32 then (s.d &&& s.b) ||| (~~~s.d &&& s.c)
+    else if i < 48 then s.b ^^^ s.c ^^^ s.d
+    else s.c ^^^ (s.b ||| ~~~s.d)
+  let g :=
+    if i < 16 then i
+    else if i < 32 then (5 * i + 1) % 16
+    else if i < 48 then (3 * i + 5) % 16
+    else (7 * i) % 16
   let f := f + s.a + K.getD i 0 + m.getD g 0
   ⟨s.d, s.b + rotl f (S.getD i 0), s.b, s.c⟩
+
+/-- Steps `i, i + 1, …, i + n - 1`.  The state is passed as four scalars so that the
+compiled loop keeps it in registers. -/
+def steps (m : Array UInt32) : (n i : Nat) → (a b c d : UInt32) → State
+  | 0, _, a, b, c, d => ⟨a, b, c, d⟩
+  | n + 1, i, a, b, c, d =>
+    let s := step m i ⟨a, b, c, d⟩
+    steps m n (i + 1) s.a s.b s.c s.d
 
 /-- Compress the 64-octet block starting at `off`. -/
 def compress (data : ByteArray) (off : Nat) (h : State) : State := Id.run do
   let mut m : Array UInt32 := Array.mkEmpty 16
   for j in [0:16] do
     m := m.push (wordLE data (off + 4 * j))
-  let mut s := h
-  for i in [0:64] do
-    s := step m i s
+  let s := steps m 64 0 h.a h.b h.c h.d
   return ⟨h.a + s.a, h.b + s.b, h.c + s.c, h.d + s.d⟩
 
 /-- MD5 of a `ByteArray`. -/
@@ -103,6 +114,6 @@ end Md5
 
 /-- MD5 digest (16 octets) of `msg`, RFC 1321. -/
 def md5 (msg : List UInt8) : List UInt8 :=
-  (Md5.hash (ByteArray.mk msg.toArray)).toList
+  (Md5.hash (msg.foldl ByteArray.push (ByteArray.emptyWithCapacity (msg.length + 72)))).toList
 
 end GufoSnmp.Crypto
